@@ -46,7 +46,7 @@ fn generate(rng: &mut Rng) -> C10Sc {
     let intent = if rng.chance(1, 2) { 2 } else { 3 };
     let mut client = ClientSpec::base(rng, intent);
     client.name = gen_name(rng);
-    client.host = (*rng.pick(&["mc.example.org", "", "play.example.net", "xn--mnchen-3ya.example", "play.example.org\0FML3\0", "mc.example.org."])).to_string();
+    client.host = (*rng.pick(&["mc.example.org", "", "play.example.net", "xn--mnchen-3ya.example", "play.example.org\0FML3\0", "mc.example.org.", "mc.example.org\0203.0.113.77\0069a79f444e94726a5befca90e38aaf5", "lobby\02001:db8::77\0x"])).to_string();
     client.port = *rng.pick(&[25565u16, 0, 65535, 1]);
     // a prior session cookie may already exist
     if rng.chance(1, 3) {
